@@ -185,3 +185,136 @@ func zzH_C16_command_atomic(t *zzT) {
 	t.Assert(res.Code() == 1, "successful command reports success")
 	t.Reach("succeeded")
 }
+
+func (s *zzsStore) Set(key, value []byte) {
+	for _, kv := range s.kvs {
+		if bytes.Equal(kv.k, key) {
+			kv.v = value
+			return
+		}
+	}
+	s.kvs = append(s.kvs, &zzsKV{k: key, v: value})
+}
+func (s *zzsStore) Del(key []byte) {
+	for i, kv := range s.kvs {
+		if bytes.Equal(kv.k, key) {
+			s.kvs = append(s.kvs[:i:i], s.kvs[i+1:]...)
+			return
+		}
+	}
+}
+
+// zzsVal is the observable content of one key: exists, length (0/1) and the byte.
+type zzsVal [3]byte
+
+func zzsMk(empty bool, v byte) ([]byte, zzsVal) {
+	if empty {
+		return []byte{}, zzsVal{1, 0, 0}
+	}
+	return []byte{v}, zzsVal{1, 1, v}
+}
+
+// C16.b/d: a block made of an earlier transaction, a command that may fail and a later transaction,
+// committed and then reverted. Persisted values may be EMPTY byte strings (present but zero-length).
+// The committed store equals the reference (failed command contributes nothing), and reverting the
+// returned diff restores the previous store exactly.
+//
+//zz:opt loop=80
+//zz:quick OPS=1
+//zz:thorough OPS=2
+func zzH_C16_block_commit_revert(t *zzT) {
+	prefix := ModuleStorePrefix([]byte{0, 0, 0, 1}, []byte{0, 0})
+	key := func(k byte) []byte { return append(append([]byte{}, prefix...), k) }
+	backing := &zzsStore{}
+	var model [3]zzsVal
+	v0, m0 := zzsMk(t.Bool("persisted0 empty"), t.U8("persisted0"))
+	backing.kvs = append(backing.kvs, &zzsKV{k: key(0), v: v0})
+	model[0] = m0
+	backing.kvs = append(backing.kvs, &zzsKV{k: key(1), v: []byte{9}})
+	model[1] = zzsVal{1, 1, 9}
+	orig := model
+	dump := func(s *zzsStore) [3]zzsVal {
+		var r [3]zzsVal
+		for k := 0; k < 3; k++ {
+			if v, ok := s.Get(key(byte(k))); ok {
+				r[k][0] = 1
+				if len(v) > 0 {
+					r[k][1], r[k][2] = 1, v[0]
+				}
+			}
+		}
+		return r
+	}
+	state := diffdb.New(backing, []byte{})
+	apply := func(name string, kinds int) (int, byte, []byte, zzsVal) {
+		kind := t.Choice(name+" kind", kinds)
+		k := t.U8(name + " key")
+		t.Assume(k < 3)
+		var val []byte
+		var mv zzsVal
+		if kind == 2 {
+			val, mv = zzsMk(t.Bool(name+" empty"), t.U8(name+" val"))
+		}
+		return kind, k, val, mv
+	}
+	// earlier transaction of the block: none / get / set / del
+	ek, ekey, eval, emv := apply("early", 4)
+	view := state.WithPrefix(prefix)
+	switch ek {
+	case 1:
+		view.Get([]byte{ekey})
+	case 2:
+		view.Set([]byte{ekey}, eval)
+		model[ekey] = emv
+	case 3:
+		view.Del([]byte{ekey})
+		model[ekey] = zzsVal{}
+	}
+	// the command
+	cmd := &zzsCommand{fail: t.Bool("fail")}
+	nops := t.Range("ops", 0, t.Param("OPS", 1))
+	cmodel := model
+	for i := 0; i < nops; i++ {
+		k := t.U8(t.Name("key", i))
+		t.Assume(k < 3)
+		op := zzsOp{store: 0, del: t.Bool(t.Name("del", i)), key: k, val: t.U8(t.Name("val", i))}
+		cmd.ops = append(cmd.ops, op)
+		if op.del {
+			cmodel[k] = zzsVal{}
+		} else {
+			cmodel[k] = zzsVal{1, 1, op.val}
+		}
+	}
+	if !cmd.fail {
+		model = cmodel
+	}
+	ex := NewExecuter()
+	ex.Init(zzsLogger{})
+	ex.modules = append(ex.modules, &zzsModule{cmd: cmd})
+	events := NewEventLogger(7)
+	tx := &blockchain.Transaction{Module: "mod", Command: "cmd", SenderPublicKey: bytes.Repeat([]byte{1}, 32), Params: []byte{}}
+	tx.Init()
+	ctx := NewTransactionExecuteContext(context.Background(), zzsLogger{}, []byte{0, 0, 0, 1}, state, events,
+		&blockchain.BlockHeader{Height: 7}, nil, nil, false, 0, tx)
+	ex.ExecuteTransaction(ctx)
+	// later transaction of the block: none / get / set / del
+	lk, lkey, lval, lmv := apply("late", 4)
+	view = state.WithPrefix(prefix)
+	switch lk {
+	case 1:
+		_, ok := view.Get([]byte{lkey})
+		t.Assert(ok == (model[lkey][0] == 1), "a later read sees the state without the failed command's writes")
+	case 2:
+		view.Set([]byte{lkey}, lval)
+		model[lkey] = lmv
+	case 3:
+		view.Del([]byte{lkey})
+		model[lkey] = zzsVal{}
+	}
+	// commit the block, then revert it
+	diff := state.Commit(backing)
+	t.Assert(dump(backing) == model, "the committed store is the previous store with the block's successful writes applied")
+	diffdb.New(backing, []byte{}).RevertDiff(backing, diff)
+	t.Assert(dump(backing) == orig, "reverting the block's diff restores the previous store exactly")
+	t.Reach("end")
+}
